@@ -107,6 +107,7 @@ def pollute():
     """Leave OTHER parser / tokenizer instances in awkward states: a feed that raised half-way and was caught, a
     tokenizer with undrained tokens, a parser with an open sysex and pending messages."""
     from mido.tokenizer import Tokenizer
+    p = mido.Parser([0xFC, 0xC1, 9, 0xF0, 1, 2])      # (first: a well-behaved parser would drain anything shared)
     try:
         mido.Parser().feed([0x90, 0x3C, 0x40, 0xF8, 0x100])
     except ValueError:
@@ -115,9 +116,8 @@ def pollute():
         mido.Parser().feed([0xFA, 0xB0, 1, 2, 'x'])
     except TypeError:
         pass
-    Tokenizer([0xFB, 0x91, 1, 2, 0xF0, 5])
-    p = mido.Parser([0xFC, 0xC1, 9, 0xF0, 1, 2])
-    return p
+    t = Tokenizer([0xFB, 0x91, 1, 2, 0xF0, 5])
+    return p, t
 
 
 def check_stream(data, entry='parse_all', cont='list', polluted=False):
